@@ -6,6 +6,7 @@ import (
 	"go/token"
 	"go/types"
 	"os"
+	"runtime"
 	"sort"
 	"strings"
 
@@ -64,6 +65,8 @@ func loadEngine(repo string, patterns []string) (*Engine, error) {
 	for _, p := range prog.AllPackages() {
 		e.spkgs[p.Pkg.Path()] = p
 	}
+	e.ghostSorts["now"] = "Int"
+	e.ghostTypes["now"] = mathIntT
 	return e, nil
 }
 
@@ -114,15 +117,15 @@ func (e *Engine) findFunc(c *Contract) *ssa.Function {
 }
 
 type FuncResult struct {
-	Key      string
-	Obligs   []*Obligation
-	Err      string // engine error (vcgen failure)
-	Mode     Mode
-	ExtUsed  []string
-	Notes    []string
-	Inlined  []string
-	NLoops   int
-	Trusted  bool
+	Key     string
+	Obligs  []*Obligation
+	Err     string // engine error (vcgen failure)
+	Mode    Mode
+	ExtUsed []string
+	Notes   []string
+	Inlined []string
+	NLoops  int
+	Trusted bool
 }
 
 func detectMode(fn *ssa.Function, seen map[*ssa.Function]bool) Mode {
@@ -231,7 +234,7 @@ func (e *Engine) genFunc(c *Contract, fn *ssa.Function, mode Mode, known map[str
 			case specErr:
 				errs = "contract: " + string(v)
 			default:
-				panic(r)
+				errs = fmt.Sprintf("internal engine failure: %v\n%s", r, shortStack())
 			}
 		}
 	}()
@@ -437,7 +440,7 @@ func (e *Engine) verifyLemma(l *Lemma) (res *FuncResult) {
 			case specErr:
 				res.Err = "lemma: " + string(v)
 			default:
-				panic(r)
+				res.Err = fmt.Sprintf("internal engine failure: %v\n%s", r, shortStack())
 			}
 		}
 	}()
@@ -508,4 +511,20 @@ func (e *Engine) inductionHyp(env *Env, l *Lemma, ce *ast.CallExpr) string {
 		post = and(post, e.evalBool(lenv, q.Expr))
 	}
 	return implies(dec, implies(pre, post))
+}
+
+func shortStack() string {
+	buf := make([]byte, 1<<14)
+	n := runtime.Stack(buf, false)
+	lines := strings.Split(string(buf[:n]), "\n")
+	var out []string
+	for _, l := range lines {
+		if strings.Contains(l, "/verif/govc/") {
+			out = append(out, strings.TrimSpace(l))
+		}
+		if len(out) >= 8 {
+			break
+		}
+	}
+	return strings.Join(out, " <- ")
 }
